@@ -65,7 +65,7 @@ class C18(Machine):
                   "edge_pop": rng.random() < 0.5, "root_len": rng.choice([None, None, 0.25, 2.0]), "junk": rng.choice([0, 0, 7, 101, 1000, 4096]),
                   "sd": rng.choice([0.0, 0.0, 0.1]), "period": rng.choice([None, 0.1, 1.0, 5.0]),
                   "strategy": rng.choice(["node_attribute", "node_attribute", "fixed_per_population", "random_uniform"]),
-                  "reuse_species_tree": rng.random() < 0.5}
+                  "reuse_species_tree": rng.random() < 0.5, "decorate": rng.random() < 0.3}
             steps.append(st)
         return {"config": {}, "initial": {}, "steps": steps}
 
@@ -127,6 +127,8 @@ class C18(Machine):
                 kw["num_genes"] = st["genes"][0]
             elif strategy == "random_uniform" and st["genes"][0] > 2:
                 kw["num_genes"] = st["genes"][0] + st["nspecies"]
+            if st.get("decorate"):
+                kw["decorate_original_tree"] = True     # the uncoalesced gene nodes are hung on the caller's species tree
             gt, wt = coalescent.constrained_kingman_tree(stree, rng=rng, gene_sampling_strategy=strategy,
                                                          gene_node_label_fn=lambda x, y: "%s_%02d" % (x, y), **kw)
             g2s = dict((lf.taxon.label, lf.taxon.label.rsplit("_", 1)[0]) for lf in rawtree.raw_nodes(gt) if not lf._child_nodes)
@@ -136,7 +138,7 @@ class C18(Machine):
             elif strategy == "fixed_per_population":
                 expected = kw["num_genes"] * nleaves
             else:
-                expected = kw.get("num_genes", nleaves)
+                expected = kw.get("num_genes") or nleaves
             return "contained", gt, (stree, g2s, expected)
         if sim == "discrete_time_to_coalescence":
             ng = max(2, n)
